@@ -104,4 +104,11 @@ TEXT = {
         "design_ref": "DESIGN.md section 2, C13",
         "level_note": "Trusted base: folding rules of the reference client (protocol document), hlsim, synctest. The fast-forward uses throw-away registry entries (Add/Delete on the production MemClientMgr), not 65k real logins.",
     },
+    "C17": {
+        "engine": "E1 bubble world",
+        "technique": "model-based stateful property testing (rapid state machine) under a fake clock: ban model with exact expiry instants vs the real connection loop, ban file and restart",
+        "level_text": "Generated histories of kicks, bans, clock advances, reconnects from exact and near-miss addresses and restarts; because the clock is synctest's fake clock the model's 'banned at t' is exact, including the instants right at expiry. Every connection attempt is checked in both directions (refused iff banned) together with its side effects.",
+        "design_ref": "DESIGN.md section 2, C17",
+        "level_note": "Trusted base: synctest fake time, hlsim, reference client. IPv4 addresses from a fixed pool of 7; restart = rebuild of all stores and the server from disk in-process.",
+    },
 }
